@@ -42,13 +42,13 @@ Definition k_codec_BYTE : Z := 0.
 Definition tr_WriteInt8 (data : Z) (tag : Z) (out : list N) : ctl (list N) (list N * bool) :=
   let err : bool := false in
     bindc (if (data =? 0)
-      then go_call (tr_WriteHead k_codec_ZeroTag tag out) (fun r => let '(out, err) := r in
+      then go_call (tr_WriteHead k_codec_ZeroTag tag out) (fun r__ => let '(out, err) := r__ in
         bindc (if (negb (Bool.eqb err false))
           then Return (out, err)
           else Next out)
         (fun out : (list N) => 
         Next (out, err)))
-      else go_call (tr_WriteHead k_codec_BYTE tag out) (fun r => let '(out, err) := r in
+      else go_call (tr_WriteHead k_codec_BYTE tag out) (fun r__ => let '(out, err) := r__ in
         bindc (if (negb (Bool.eqb err false))
           then Return (out, err)
           else Next out)
@@ -69,13 +69,13 @@ Definition k_codec_SHORT : Z := 1.
 Definition tr_WriteInt16 (data : Z) (tag : Z) (out : list N) : ctl (list N) (list N * bool) :=
   let err : bool := false in
     bindc (if (if (k_math_MinInt8 <=? data) then (data <=? k_math_MaxInt8) else false)
-      then go_call (tr_WriteInt8 (wrapS 8 data) tag out) (fun r => let '(out, err) := r in
+      then go_call (tr_WriteInt8 (wrapS 8 data) tag out) (fun r__ => let '(out, err) := r__ in
         bindc (if (negb (Bool.eqb err false))
           then Return (out, err)
           else Next out)
         (fun out : (list N) => 
         Next (out, err)))
-      else go_call (tr_WriteHead k_codec_SHORT tag out) (fun r => let '(out, err) := r in
+      else go_call (tr_WriteHead k_codec_SHORT tag out) (fun r__ => let '(out, err) := r__ in
         bindc (if (negb (Bool.eqb err false))
           then Return (out, err)
           else Next out)
@@ -96,13 +96,13 @@ Definition k_codec_INT : Z := 2.
 Definition tr_WriteInt32 (data : Z) (tag : Z) (out : list N) : ctl (list N) (list N * bool) :=
   let err : bool := false in
     bindc (if (if (k_math_MinInt16 <=? data) then (data <=? k_math_MaxInt16) else false)
-      then go_call (tr_WriteInt16 (wrapS 16 data) tag out) (fun r => let '(out, err) := r in
+      then go_call (tr_WriteInt16 (wrapS 16 data) tag out) (fun r__ => let '(out, err) := r__ in
         bindc (if (negb (Bool.eqb err false))
           then Return (out, err)
           else Next out)
         (fun out : (list N) => 
         Next (out, err)))
-      else go_call (tr_WriteHead k_codec_INT tag out) (fun r => let '(out, err) := r in
+      else go_call (tr_WriteHead k_codec_INT tag out) (fun r__ => let '(out, err) := r__ in
         bindc (if (negb (Bool.eqb err false))
           then Return (out, err)
           else Next out)
@@ -123,13 +123,13 @@ Definition k_codec_LONG : Z := 3.
 Definition tr_WriteInt64 (data : Z) (tag : Z) (out : list N) : ctl (list N) (list N * bool) :=
   let err : bool := false in
     bindc (if (if (k_math_MinInt32 <=? data) then (data <=? k_math_MaxInt32) else false)
-      then go_call (tr_WriteInt32 (wrapS 32 data) tag out) (fun r => let '(out, err) := r in
+      then go_call (tr_WriteInt32 (wrapS 32 data) tag out) (fun r__ => let '(out, err) := r__ in
         bindc (if (negb (Bool.eqb err false))
           then Return (out, err)
           else Next out)
         (fun out : (list N) => 
         Next (out, err)))
-      else go_call (tr_WriteHead k_codec_LONG tag out) (fun r => let '(out, err) := r in
+      else go_call (tr_WriteHead k_codec_LONG tag out) (fun r__ => let '(out, err) := r__ in
         bindc (if (negb (Bool.eqb err false))
           then Return (out, err)
           else Next out)
